@@ -147,6 +147,12 @@ def noise_std(a, snr_i, snr_in_db):
 
 
 @ensures(NOISE)
+def noise_shape(a, snr, snr_in_db, std, result):
+    """the part of the postcondition a caller may use: a new array of the same length"""
+    return is_ndarray(result) and len(result) == len(a)
+
+
+@ensures(NOISE, export=False)           # refers to the ghost record of the np.random.normal calls of *this* activation
 def noise_additive(a, snr, snr_in_db, std, result):
     """x/length unchanged; y changes only by the value drawn from numpy.random.normal, drawn once, zero mean"""
     return (n_normal_calls() == 1 and normal_loc(0) == 0 and normal_size(0) == len(a)
@@ -154,7 +160,7 @@ def noise_additive(a, snr, snr_in_db, std, result):
             and forall(range(len(a)), lambda i: eq(result[i], a[i] + normal_result(0)[i])))
 
 
-@ensures(NOISE)
+@ensures(NOISE, export=False)
 def noise_scale(a, snr, snr_in_db, std, result):
     """the standard deviation handed to numpy.random.normal follows the SNR definition"""
     return (eq(normal_scale(0), std) if snr is None else
